@@ -1,12 +1,12 @@
 package mc
 
 import (
-	"math/big"
-	sdkmath "cosmossdk.io/math"
 	"bytes"
 	"context"
+	sdkmath "cosmossdk.io/math"
 	"encoding/json"
 	"fmt"
+	"math/big"
 	"net"
 	"os"
 	"os/exec"
@@ -18,14 +18,14 @@ import (
 
 	autocliv1 "cosmossdk.io/api/cosmos/autocli/v1"
 	"cosmossdk.io/x/tx/signing/aminojson"
-	gogoproto "github.com/cosmos/gogoproto/proto"
-	"google.golang.org/protobuf/proto"
-	"google.golang.org/protobuf/types/dynamicpb"
-	fkeeper "github.com/tendermint/fundraising/x/fundraising/keeper"
 	sdk "github.com/cosmos/cosmos-sdk/types"
 	banktypes "github.com/cosmos/cosmos-sdk/x/bank/types"
+	gogoproto "github.com/cosmos/gogoproto/proto"
+	fkeeper "github.com/tendermint/fundraising/x/fundraising/keeper"
+	"google.golang.org/protobuf/proto"
 	"google.golang.org/protobuf/reflect/protoreflect"
 	"google.golang.org/protobuf/reflect/protoregistry"
+	"google.golang.org/protobuf/types/dynamicpb"
 
 	fmodule "github.com/tendermint/fundraising/x/fundraising/module"
 	ftypes "github.com/tendermint/fundraising/x/fundraising/types"
@@ -209,14 +209,24 @@ func RunBinary(p *Plan, o ExecOpts) (*ExecOut, error) {
 		qs := fkeeper.NewQueryServerImpl(w.K)
 		bid1 := world.A("bid1").Bech32
 		answers := map[string]func() (gogoproto.Message, error){
-			"Params":            func() (gogoproto.Message, error) { return qs.Params(nd.ctx, &ftypes.QueryParamsRequest{}) },
-			"ListAuction":       func() (gogoproto.Message, error) { return qs.ListAuction(nd.ctx, &ftypes.QueryAllAuctionRequest{}) },
-			"GetAuction":        func() (gogoproto.Message, error) { return qs.GetAuction(nd.ctx, &ftypes.QueryGetAuctionRequest{AuctionId: 0}) },
-			"ListAllowedBidder": func() (gogoproto.Message, error) { return qs.ListAllowedBidder(nd.ctx, &ftypes.QueryAllAllowedBidderRequest{}) },
-			"GetAllowedBidder":  func() (gogoproto.Message, error) { return qs.GetAllowedBidder(nd.ctx, &ftypes.QueryGetAllowedBidderRequest{AuctionId: 0, Bidder: bid1}) },
-			"ListBid":           func() (gogoproto.Message, error) { return qs.ListBid(nd.ctx, &ftypes.QueryAllBidRequest{}) },
-			"GetBid":            func() (gogoproto.Message, error) { return qs.GetBid(nd.ctx, &ftypes.QueryGetBidRequest{AuctionId: 0, BidId: 1}) },
-			"ListVestingQueue":  func() (gogoproto.Message, error) { return qs.ListVestingQueue(nd.ctx, &ftypes.QueryAllVestingQueueRequest{}) },
+			"Params":      func() (gogoproto.Message, error) { return qs.Params(nd.ctx, &ftypes.QueryParamsRequest{}) },
+			"ListAuction": func() (gogoproto.Message, error) { return qs.ListAuction(nd.ctx, &ftypes.QueryAllAuctionRequest{}) },
+			"GetAuction": func() (gogoproto.Message, error) {
+				return qs.GetAuction(nd.ctx, &ftypes.QueryGetAuctionRequest{AuctionId: 0})
+			},
+			"ListAllowedBidder": func() (gogoproto.Message, error) {
+				return qs.ListAllowedBidder(nd.ctx, &ftypes.QueryAllAllowedBidderRequest{})
+			},
+			"GetAllowedBidder": func() (gogoproto.Message, error) {
+				return qs.GetAllowedBidder(nd.ctx, &ftypes.QueryGetAllowedBidderRequest{AuctionId: 0, Bidder: bid1})
+			},
+			"ListBid": func() (gogoproto.Message, error) { return qs.ListBid(nd.ctx, &ftypes.QueryAllBidRequest{}) },
+			"GetBid": func() (gogoproto.Message, error) {
+				return qs.GetBid(nd.ctx, &ftypes.QueryGetBidRequest{AuctionId: 0, BidId: 1})
+			},
+			"ListVestingQueue": func() (gogoproto.Message, error) {
+				return qs.ListVestingQueue(nd.ctx, &ftypes.QueryAllVestingQueueRequest{})
+			},
 		}
 		enc := aminojson.NewEncoder(aminojson.EncoderOptions{FileResolver: protoregistry.GlobalFiles, TypeResolver: protoregistry.GlobalTypes})
 		if svc, ok := svcOf["query"]; ok {
